@@ -8,8 +8,12 @@ VARIABLES pos, st
 \* semantics) and three cells of the address menu
 Slots == <<"x8", "y8", "x32", "y32", "p32", "c8", "c32", "k32">>
 Choices == {"absent", "const1", "const2", "sym", "symop"}
+\* "xref": the binding mentions ANOTHER identifier of the alphabet, which may itself be bound (x8 := y8 ^ 0x55, x32 := y32 + 0x100,
+\* c32 := y32 + 1): evaluation is simultaneous substitution, so the identifier inside a binding keeps its valuation value
+XrefSlots == {"x8", "x32", "c32"}
+ChoicesAt(p) == Choices \cup (IF Slots[p] \in XrefSlots THEN {"xref"} ELSE {})
 Init == pos = 0 /\ st = <<>>
-Next == pos < Len(Slots) /\ pos' = pos + 1 /\ \E c \in Choices : st' = Append(st, c)
+Next == pos < Len(Slots) /\ pos' = pos + 1 /\ \E c \in ChoicesAt(pos') : st' = Append(st, c)
 \* quick tiers take a covering sample: TLC's -simulate walks are used beyond the exhaustive bound
 Done == pos = Len(Slots)
 TypeOK == Len(st) = pos
